@@ -1512,7 +1512,7 @@ class Interp:
             ch = False
             self.kill_dead(fr, head, stt)
             for s1 in self.ts_split(fr, stt):
-                sig = self.ts_sig(fr, s1)
+                sig = (self.ts_sig(fr, s1), self.flag_sig(fr, head, s1))
                 old = sigstates.get(sig)
                 if old is None:
                     sigstates[sig] = s1
@@ -1640,6 +1640,23 @@ class Interp:
         r = (live_in, addr)
         self._live[key] = r
         return r
+
+    def flag_sig(self, fr, head, st):
+        """known truth values of the (at most 3) boolean locals live at the loop head: the head invariant is kept as a
+        disjunction over them (loops steered by a `done` flag keep what was established when the flag was set)"""
+        live_in, _addr = self.liveness(fr.body)
+        out = []
+        for i in sorted(live_in.get(head, ())):
+            if fr.body["locals"][i]["ty"].get("k") != "bool":
+                continue
+            v = st.mem.get(("L", fr.fid, i))
+            if isinstance(v, VBool) and v.e[0] == "c":
+                out.append((i, v.e[1]))
+            else:
+                out.append((i, None))
+        if len(out) > 3:
+            return ()
+        return tuple(out)
 
     def kill_dead(self, fr, head, st):
         live_in, addr = self.liveness(fr.body)
